@@ -419,6 +419,7 @@ fn check_compress(idx: u64, values: &[i64], max: u8, acc: &mut Acc, case: &dyn F
     }
 }
 
+const EXTREME_LATTICE: [i64; 13] = [-(1 << 31) + 1, -(2047 << 20), -(1024 << 20), -3, -2, 0, 1, 2, 5, (1024 << 20) + 1, 2047 << 20, (1 << 31) - 2, (1 << 31) - 1];
 const LAT7: [i64; 7] = [0, 1, 2, 5, 6, 20, -3];
 const TRANSFORMS: [(i64, i64); 5] = [(1, 0), (1, -7), (3, -20), (65537, -(1 << 23)), (2, 1)];
 
@@ -733,7 +734,7 @@ fn main() {
     ctx.assume("fix_word text: the exact digits (TFtoPL §40-43 prints the shortest decimal) are recorded, not judged; judged are: the text denotes the value under PLtoTF §62-66, and the value comes back through a whole printed property list");
     ctx.assume("fix_word text: the pattern 0x80000000 prints as -2048.0, which the PL format cannot express (PLtoTF §62-64: 'Real constants must be less than 2048'); for it only 'no panic' is required and what the reader did is recorded as an outcome class");
     ctx.assume("to_scaled: TeX's legal ranges are design size in [1pt, 2048pt) (TeX §568 aborts otherwise) and a value whose first byte is 0 or 255 (§571 aborts otherwise); pairs outside are not enumerated; the font is loaded at its design size");
-    ctx.assume("compress: values are legal font dimensions (|v| < 16.0, so sums of two values fit in 32 bits), limits 1..=255; 'within half the tolerance' is read as 2|v-rep| <= d when d is even and d+1 when d is odd (no integer midpoint exists)");
+    ctx.assume("compress: values are fix_words other than -2048.0 (the lattices hold legal font dimensions |v| < 16.0; the family compress-extremes adds +-2047.999999, +-2047, +-1024), limits 1..=255; the oracle is computed in 64 bits; 'within half the tolerance' is read as 2|v-rep| <= d when d is even and d+1 when d is odd (no integer midpoint exists)");
     ctx.assume("compress: the property asks for the minimal tolerance, the class limit and the half-tolerance bound only. PLtoTF §78 additionally stops merging as soon as `excess` = n - limit values have been removed; whether the table equals PLtoTF's own is recorded as an outcome class, not judged");
     ctx.assume("next larger: links leave existing characters only (TFtoPL §84 never visits a nonexistent character and PLtoTF §111 creates the target without a tag); a link to a nonexistent character is dropped or kept as the `drop_non_existent_characters` argument says (TFtoPL §84 / PLtoTF §111); warnings are recorded as outcome classes, not judged");
     let tr = text_ranges(ctx.quick());
@@ -831,6 +832,21 @@ fn main() {
                 acc.sample(i, || json!({"values": values, "limit": limit, "min_tolerance": fix::min_tolerance(&fix::sorted_distinct(&values), limit)}));
             }
         });
+        // extreme members: classes that span more than the largest fix_word (distances up to 2^32 - 2)
+        let ext = &EXTREME_LATTICE;
+        let eb = ext.len();
+        ctx.family("compress-extremes", &format!("every non-empty subset of {ext:?} (+-2047.999999, +-2047, +-1024, 0 and small values, negative odd sums included) x every limit 1..=|S|"), (1u64 << eb) * eb as u64, |i, acc| {
+            let d = vcore::digits(i, &[1 << eb, eb as u64]);
+            let set: Vec<i64> = (0..eb).filter(|k| d[0] >> k & 1 == 1).map(|k| ext[k]).collect();
+            let limit = d[1] as usize + 1;
+            if set.is_empty() || limit > set.len() {
+                return;
+            }
+            if set[set.len() - 1] - set[0] > i32::MAX as i64 {
+                acc.count("span_exceeds_largest_fix_word");
+            }
+            check_compress(i, &set, limit as u8, acc, &|| json!({"kind": "compress", "values": set, "limit": limit}));
+        });
         let limits = [15u8, 63, 255];
         ctx.family("compress-large", &format!("{SHAPES} deterministic families (progressions, clusters, scattered, powers of two, parabola ...) of n values for every n in 256..=300 x limits 15, 63, 255"), SHAPES * 45 * 3, |i, acc| {
             let d = vcore::digits(i, &[SHAPES, 45, 3]);
@@ -868,6 +884,7 @@ fn main() {
     ctx.require("compression_needed", "more distinct values than the limit");
     ctx.require("tolerance_odd", "an odd minimal tolerance (midpoint rounding matters)");
     ctx.require("pltotf_excess_rule_matters", "PLtoTF's `excess` counter would stop merging before the greedy cover is complete");
+    ctx.require("span_exceeds_largest_fix_word", "the input spans more than 2047.999999 (the distance of two values does not fit in a fix_word)");
     ctx.require("duplicates_in_input", "the input repeats a value");
     ctx.require("nl_cycle", "the graph has a cycle");
     ctx.require("nl_two_cycles", "the graph has two cycles");
